@@ -16,7 +16,10 @@ FIXED_Q = ["SELECT * FROM a", "SELECT f FROM a GROUP BY b, period(4s)", "SELECT 
            "SELECT f FROM a GROUP BY a ORDER BY f DESC LIMIT 2", "SELECT f FROM a WHERE b IN (SELECT b FROM b) GROUP BY a",
            "SELECT f FROM a GROUP BY CROSSTAB(b), a", "SELECT f / _points AS avgf, _points FROM a GROUP BY b",
            "SELECT SHIFT(f, '-2s') AS sh, f FROM a GROUP BY a", "SELECT f FROM (SELECT f, g FROM a GROUP BY a, b) GROUP BY b",
-           "SELECT f FROM b", "SELECT f FROM a WHERE a = 1 OR b = 'x'", "SELECT f FROM a ASOF '-6s' UNTIL '-1s' GROUP BY a"]
+           "SELECT f FROM b", "SELECT f FROM a WHERE a = 1 OR b = 'x'", "SELECT f FROM a ASOF '-6s' UNTIL '-1s' GROUP BY a",
+           # values at the edge of what a float64 holds: x / 0 and sums beyond the int64 range
+           "SELECT f / g AS ratio, f FROM a GROUP BY a", "SELECT f * 4611686018427387904 AS big, f FROM a GROUP BY b",
+           "SELECT g / f AS r2, f / (g - g) AS r3 FROM a"]
 
 
 def wire_scenario(scn, rng, P, variant, nq, faults=False):
@@ -32,7 +35,7 @@ def wire_scenario(scn, rng, P, variant, nq, faults=False):
     qs = []
     pool = list(FIXED_Q)
     rng.shuffle(pool)
-    for q in pool[:nq // 2]:
+    for q in pool[:nq // 2] + [q for q in FIXED_Q[-3:] if q not in pool[:nq // 2]][:2]:
         qs.append({"sql": q})
     while len(qs) < nq:
         q = querygen.gen_query(rng, tabs, now_hint=5)
